@@ -263,6 +263,17 @@ def run(rep: Report, tier: str) -> None:
     rg = rep.rule("C08.g", "with -n the negative balance is reported: the Account Balances table has one row per balance of the set, no sign filter", floor=8)
     fr = c13.FullReport()
     c13.check_writer(rep, fr, "__generate_account_balances", rg, rg)
+    # ... and the record that carries the balance to the report accepts a negative figure: its amounts are validated as decimals, not as positive decimals
+    bal = prog.cls("rp2.balance", "Balance")
+    post = bal.methods.get("__post_init__") or bal.methods.get("__init__")
+    if post is None:
+        raise AnalysisError("Balance has neither __post_init__ nor __init__")
+    rep.analysed(post)
+    signed = [n for n in ast.walk(post.node) if isinstance(n, ast.Call) and isinstance(n.func, ast.Attribute) and n.func.attr.startswith("type_check_positive") and any("balance" in unparse(a) for a in n.args)]
+    for n in signed:
+        rep.violation(rg, post.module, post.qualname, f"Balance amounts accept negative values: {short(n, 60)}", f"{short(n, 100)} rejects a negative amount: with -n an account that ends below zero cannot be put into the balance set, so the run aborts instead of reporting the negative balance", loc(n), definite=True)
+    if not signed:
+        rep.ok(rg, "Balance validates its four amounts as plain decimals (negative values representable)")
 
 
 def _is_dispatch(bm, cond) -> bool:
